@@ -471,6 +471,11 @@ def c16(year, base, assign, r, asked):
             for p in itertools.permutations(secs):
                 if list(p) != secs:
                     perms.append(dict(zip(secs, p)))
+        elif len(secs) > 3:
+            # more copies than the bound on full permutation: reversal, one rotation, first <-> last
+            secs = sorted(secs, key=lambda x: int(x.split(':')[1]))
+            for p in (secs[::-1], secs[1:] + secs[:1], secs[-1:] + secs[1:-1] + secs[:1]):
+                perms.append(dict(zip(secs, p)))
     for ren in perms:
         rr, _ = e3.run_return(year, base, assign, rename=ren)
         n += 1
